@@ -634,11 +634,39 @@ func c11(r *Report) {
 				}
 			}
 			walk(m.Block())
+			// both directions recognise gRPC by themselves: a processor may be attached
+			// to the response side only
+			dirDep := false
+			for _, ce := range ctrlEdges(m.Block()) {
+				if anyIn(w.backSlice(ce.If.Cond, flowOpt{BinOps: true}), func(x ssa.Value) bool {
+					fa, y := x.(*ssa.FieldAddr)
+					return y && fieldObj(fa).Name() == "dir"
+				}) {
+					dirDep = true
+				}
+			}
+			r.Decide("path", "(*M/h2/grpc.adapter).Header: recognising gRPC does not depend on the direction", !dirDep, "the content-type scan runs for request and response headers alike", "the stream is marked gRPC only while handling one direction's headers: an adapter that sees only the other direction (a response-only processor) never shows it a header or a message", m.Pos())
 			r.Decide("path", "(*M/h2/grpc.adapter).Header: a stream is marked gRPC only on an exact content-type", bad == "", "every edge into the marking statement is the true edge of an equality (or delimiter-terminated prefix) test of the content-type value", "the stream is treated as gRPC "+bad+": streams that are not gRPC are re-framed or swallowed instead of passing through untouched", m.Pos())
 		}
 	})
 
 	r.Guard("C11.R4", "an end of stream that carries no message adds no message to the wire", func() {
+		// nil is the marker of "no message": a real message, even an empty one, is
+		// never handed over as the nil slice (the emitter would take it for a bare end
+		// of stream and the message would vanish)
+		for _, c := range calls(ad) {
+			cc := c.Common()
+			if !cc.IsInvoke() || cc.Method.Name() != "Message" || isNilConst(cc.Args[0]) {
+				continue
+			}
+			nilLeaf := false
+			for _, l := range resolveAll(cc.Args[0]) {
+				if isNilConst(l) {
+					nilLeaf = true
+				}
+			}
+			r.Decide("flow", "(*M/h2/grpc.adapter).Data: a message handed to the processor is never the nil slice", !nilLeaf, "every value the message can take is an allocated slice or a decoder result", "a message (e.g. a zero-length one) can reach the processor as nil, the marker of a message-less end of stream: it is dropped, and with it the message count the peer sees", c.Pos())
+		}
 		// adapter: the only nil message is the bare end of stream (empty buffer and streamEnded)
 		okA := true
 		nNil := 0
